@@ -19,7 +19,7 @@ Import ListNotations.
 Require Import TV.Base.EP TV.Base.EPSound TV.Base.Amp TV.Model.Lane TV.Spec.Born TV.gen.Gen_instructions TV.gen.Gen_channel_tables
   TV.Model.GateCheck TV.Model.InstrCheck TV.Model.KrausCheck TV.Proofs.GateProofs TV.Proofs.InstrProofs
   TV.Proofs.CircuitProofs TV.Proofs.CircuitTheorem TV.Proofs.DenseBridge TV.Proofs.KrausSem TV.Proofs.KrausLocal TV.Proofs.KrausTheorem
-  TV.Proofs.KrausGates TV.Proofs.KrausCircuit TV.Proofs.KrausBorn TV.Proofs.KrausMpp TV.Model.Parse TV.Proofs.ParseElab TV.Proofs.ParseBorn.
+  TV.Proofs.KrausGates TV.Proofs.KrausCircuit TV.Proofs.KrausBorn TV.Proofs.KrausMpp TV.Model.Parse TV.Proofs.ParseElab TV.Proofs.ParseBorn TV.Proofs.ParseWeights TV.Proofs.ParseOk.
 
 (* M MX MY MR MRX MRY x {plain, inverted} x {noiseless, noisy} x {existing lane, fresh lane} x all bits:
    Kraus(reported r, inversion inv, noise e) = projector / projector-and-reprepare onto outcome r xor inv xor e *)
@@ -249,3 +249,44 @@ Theorem C01_parsed_text_born_weight :
           (rsum R rO radd (map (fun i => sqabs R rmul conj (cspec R rO rI radd rmul ropp E half ta tb tc b (kinit R rO rI n) cs (kpsi R (kinit R rO rI n)) (Nat.testbit i)))
                                (seq 0 (dim n)))).
 Proof. exact parsed_born_weight. Qed.
+
+(* ... and the very number the correspondence run evaluates: Model/Parse.weight n ops rec err (the sum over the silent bits of the
+   squared norms; its normalised form is compared with the distribution tsim's sampler uses, for every record and error assignment,
+   on every run) equals |C|^2 times the sum over the silent bits of the squared norms of the ordered product of the documented Kraus
+   operators applied to |0...0> -- the Born weight of the record, for that error assignment, up to one constant. *)
+Theorem C01_parsed_text_weight :
+  forall (R : Type) (rO rI : R) (radd rmul rsub : R -> R -> R) (ropp : R -> R),
+  ring_theory rO rI radd rmul rsub ropp eq ->
+  forall E : Qc -> R, (forall a b, E (a + b)%Qc = rmul (E a) (E b)) -> E 0%Qc = rI -> E 1%Qc = ropp rI ->
+  forall half : R, radd half half = rI ->
+  forall conj : R -> R, (forall a b, conj (radd a b) = radd (conj a) (conj b)) -> (forall a b, conj (rmul a b) = rmul (conj a) (conj b)) ->
+  conj rI = rI -> (forall q, conj (E q) = E (- q)%Qc) -> conj half = half -> forall ta tb tc : Qc,
+  forall (n aux : nat) (c : list instr) (cs : list cinstr) (ps : pstate),
+    build aux c = Some ps -> parse_is_circuit aux c cs = true ->
+    forallb (cinstr_lanes_ok n) cs = true -> ccircuit_ok R rO rI radd rmul ropp E half ta tb tc (kinit R rO rI n) cs = true ->
+    exists C, sq2 R rO rI radd rmul ropp E half ta tb tc C /\ forall rec err,
+      eval R rO rI radd rmul ropp E half ta tb tc (weight n (pops ps) rec err)
+      = rmul (sqabs R rmul conj C)
+          (rsum R rO radd (map (fun sil => kraus_norm R rO rI radd rmul ropp E half conj ta tb tc n cs (mkB rec sil err))
+                               (bitvecs (snd (fst (counts n (pops ps))))))).
+Proof. exact parsed_weight. Qed.
+
+(* EVERY HYPOTHESIS DECIDABLE.  The bookkeeping hypothesis (every record a feedback instruction refers to exists) only depends on the
+   number of non-silent measurements drawn so far -- a computation on natural numbers (ParseOk.ccircuit_ok_nat, proved to imply the
+   ring-level hypothesis in every ring).  parsed_ok n aux c cs is a boolean; the harness evaluates it for every circuit of the model
+   comparison, and whenever it is true the parsed text is the ordered product of the documented operators. *)
+Theorem C01_parsed_text_decidable :
+  forall (R : Type) (rO rI : R) (radd rmul rsub : R -> R -> R) (ropp : R -> R),
+  ring_theory rO rI radd rmul rsub ropp eq ->
+  forall E : Qc -> R, (forall a b, E (a + b)%Qc = rmul (E a) (E b)) -> E 0%Qc = rI -> E 1%Qc = ropp rI ->
+  forall half : R, radd half half = rI -> forall ta tb tc : Qc,
+  forall (n aux : nat) (c : list instr) (cs : list cinstr) (ps : pstate),
+    build aux c = Some ps -> parsed_ok n aux c cs = true ->
+    exists C, sq2 R rO rI radd rmul ropp E half ta tb tc C /\ forall b, exists e : Qc,
+      st_of R rO rI radd rmul ropp E half ta tb tc n (final_vec (run n b (pops ps) (init_state n)))
+      = Amp.scale R rmul (rmul (E e) C)
+          (cspec R rO rI radd rmul ropp E half ta tb tc b (kinit R rO rI n) cs (kpsi R (kinit R rO rI n))).
+Proof. exact parse_kraus_dec. Qed.
+Example C01_parsed_text_decidable_inhabited :
+  match elab_circuit 3 elab_example with Some cs => parsed_ok 4 3 elab_example cs | None => false end = true.
+Proof. exact parsed_ok_example. Qed.
